@@ -102,6 +102,7 @@ func init() {
 	c08 = append(c08,
 		Harness{Pkg: "jpeg2000", Fn: "VerifC08ParserWindow", AllocCut: 64, Params: [2]map[string]int64{P("k", 2), P("k", 3)}, Bounds: [2]string{"every position of two valid codestreams, k=2", "k=3"}, Desc: "codestream.Parser.Parse on a valid codestream with a k-byte symbolic window / truncation"},
 		Harness{Pkg: "jpeg2000", Fn: "VerifC08Window", Label: "jpeg2000:packetdata", AllocCut: 64, Params: [2]map[string]int64{P("k", 1, "region", 2, "scanpos", 2), P("k", 2, "region", 2, "scanpos", 4)}, Bounds: [2]string{"first 2 bytes after SOD, k=1", "first 4 bytes after SOD, k=2"}, Desc: "jpeg2000.Decoder.Decode (tile decoder, packet headers, T1/MQ) with symbolic bytes at the start of the packet data; main-header corruption through the full decoder is outside the claim (covered for the parser)"},
+		Harness{Pkg: "jpeg2000", Fn: "VerifC08ParserTiles", AllocCut: 64, Bounds: [2]string{"one of 8 SIZ fields (32 bits) symbolic", "same"}, Desc: "front of jpeg2000.Decoder.Decode: codestream parser, then tile layout / tile assembler built from the parsed SIZ, on a valid codestream in which one whole 32-bit SIZ field (image extent, image offset, tile size, tile offset) is symbolic"},
 		Harness{Pkg: "jpeg2000/codestream", Fn: "VerifC08ParserFree", AllocCut: 48, Params: [2]map[string]int64{P("n", 8), P("n", 12)}, Bounds: [2]string{"SOC + 8 symbolic bytes", "SOC + 12 symbolic bytes"}, Desc: "SOC followed by N fully symbolic bytes through Parse"},
 		Harness{Pkg: "jpeg2000/codestream", Fn: "VerifC08ParserSIZ", AllocCut: 48, Params: [2]map[string]int64{P("tail", 4), P("tail", 8)}, Bounds: [2]string{"SIZ for 1-2 components fully symbolic + 4 bytes", "+ 8 bytes"}, Desc: "SOC, SIZ with concrete length and fully symbolic payload, then symbolic bytes"},
 		Harness{Pkg: "rle", Fn: "VerifC08RLEData", AllocCut: 64, Params: [2]map[string]int64{P("data", 4), P("data", 6)}, Bounds: [2]string{"4 symbolic segment bytes, 1 and 2 byte planes", "6 bytes"}, Desc: "rle.Codec.Decode on a well-formed header followed by fully symbolic segment bytes (every control byte incl. the 0x80 no-op, literal and repeat runs running over the segment or the frame)"},
@@ -277,7 +278,7 @@ func init() {
 		Assumptions: []string{"the HT block coder branches on every coefficient bit: sample values are enumerated path by path (enumerative), so only tiny frames are reached", "NOT covered: frames beyond the stated sizes, 16-bit containers, code-block sizes and explicit decomposition depths other than the codec defaults, the third-party OpenJPH/fo-dicom fixtures (the decoder's agreement with foreign streams is not decided)"},
 		Harnesses: []Harness{
 			{Pkg: "internal/zzc10", Fn: "VerifC06Codec", Desc: "HTJ2K Lossless (.201) and Lossless RPCL (.202) codecs, Encode -> Decode on tiny frames with symbolic samples (incl. 1-pixel-wide and 1-pixel-high frames whose decomposition depth is clamped to 0): decoded bytes equal the source",
-				Bounds: [2]string{"1x1 frames: BitsStored 2 (all values) and 8 (values 0,1,254,255); .201 and .202", "+ 2x1 within the wall budget (a 2x1 frame did not finish in 10 minutes when probed: reported under not_discharged when the budget is hit)"}, Params: [2]map[string]int64{P("ngeom", 1, "nP", 2), P("ngeom", 2, "nP", 2)}, Enumerative: true, MaxSteps: 900_000_000, BudgetS: [2]int{600, 1500}},
+				Bounds: [2]string{"1x1 frames: BitsStored 2 (all values) and 8 (values 0,1,254,255); .201 and .202", "+ 2x1 within the wall budget (a 2x1 frame did not finish in 10 minutes when probed: reported under not_discharged when the budget is hit)"}, Params: [2]map[string]int64{P("ngeom", 1, "nP", 2), P("ngeom", 2, "nP", 2)}, Enumerative: true, MaxSteps: 900_000_000, BudgetS: [2]int{600, 600}},
 		}})
 	reg(Check{Property: "C11",
 		Assumptions: []string{"the numeric per-sample bound of C11 for ARBITRARY contents (DCT/IDCT accuracy, colour rounding) is NOT decided - probed and out of reach (DESIGN.md section 9.6); decided are the table structure (tables in the stream are the tables that quantised, T.81 zig-zag order, parser recovers them, edge replication) for all values, and the bound itself only on the fixed contents of the two round-trip harnesses"},
